@@ -6,6 +6,7 @@ import (
 	"fmt"
 	"sync"
 	"sync/atomic"
+	"time"
 
 	"github.com/256dpi/lungo"
 	"go.mongodb.org/mongo-driver/bson"
@@ -30,7 +31,7 @@ func init() {
 		Batches:     func(tier string) int { return 16 },
 		Require: func(tier string) map[string]int64 {
 			return map[string]int64{"txn_calls_mirrored": 2000, "commits": 150, "aborts": 100, "end_session_aborts": 20, "store_failures": 20, "callback_errors": 20, "callback_panics": 10, "outside_checks": 2000,
-				"snapshots_taken": 500, "snapshot_rechecks": 10000, "cursor_snapshots": 100, "cancelled_writes": 50, "concurrent_runs": 16, "concurrent_snapshot_reads": 500}
+				"snapshots_taken": 500, "snapshot_rechecks": 10000, "cursor_snapshots": 100, "cancelled_writes": 50, "concurrent_runs": 16, "concurrent_snapshot_reads": 500, "trimming_commits_with_held_snapshots": 40}
 		},
 		Run: runC03,
 	})
@@ -104,10 +105,110 @@ func txnReads(t *lungo.Transaction, handles []lungo.Handle) string {
 
 var c03Handles = []lungo.Handle{{"d", "c1"}, {"d", "c2"}}
 
+// c03Trimmed: held snapshots while commits of every kind (data writes, index
+// builds and drops, collection creation, transactions) trim old events from the
+// change log (retention): the snapshots, including their change log, must not
+// change.
+func c03Trimmed(c *fw.Ctx) {
+	kinds := []string{"insert", "createIndex", "dropIndex", "createCollection", "update", "transaction", "dropCollection", "delete"}
+	caseNo := 0
+	for L := 4; L <= 8; L += 2 {
+		for minSize := 1; minSize <= 2; minSize++ {
+			for first := range kinds {
+				caseNo++
+				if caseNo%c.NBatches != c.Batch {
+					continue
+				}
+				idx := 8500000 + caseNo
+				if c.Skip(idx) {
+					continue
+				}
+				var w *world
+				describe := func() interface{} {
+					if w == nil {
+						return nil
+					}
+					return map[string]interface{}{"history": w.history(), "old_events": L, "minSize": minSize}
+				}
+				c.Case(idx, describe, nil, func() {
+					c.Eval(1)
+					ages := make([]time.Duration, L)
+					for i := range ages {
+						ages[i] = ageOld
+					}
+					var err error
+					w, err = openWorldWith("", func(o *lungo.Options) {
+						o.Store = &preloadedStore{cat: craftedOplog(ages)}
+						o.MinOplogSize, o.MaxOplogSize, o.MinOplogAge, o.MaxOplogAge = minSize, minSize+2, 5*time.Minute, time.Hour
+					})
+					if err != nil {
+						c.Inconclusive("open engine: " + err.Error())
+						return
+					}
+					defer w.close()
+					ctx := context.Background()
+					type held struct {
+						what string
+						cat  func() *lungo.Catalog
+						dump mon.CatDump
+					}
+					var snaps []held
+					take := func(after string) {
+						cat := w.engine.Catalog()
+						snaps = append(snaps, held{what: "catalog obtained after " + after, cat: func() *lungo.Catalog { return cat }, dump: exactDump(cat)})
+						if t, err := w.engine.Begin(ctx, false); err == nil {
+							snaps = append(snaps, held{what: "read-only transaction begun after " + after, cat: t.Catalog, dump: exactDump(t.Catalog())})
+						}
+					}
+					take("opening")
+					// a collection with an index to drop, created before the old events age out of protection
+					for k := 0; k < len(kinds); k++ {
+						kind := kinds[(first+k)%len(kinds)]
+						before := mon.OplogLen(w.engine.Catalog())
+						switch kind {
+						case "insert":
+							w.exec(&drv.Op{Kind: drv.InsertOne, DB: "d", Coll: "c", Docs: []bson.D{{{Key: "_id", Value: int32(k)}, {Key: "a", Value: int32(k)}}}})
+						case "createIndex":
+							w.exec(&drv.Op{Kind: drv.CreateIndex, DB: "d", Coll: "c", Index: drv.IndexSpec{Keys: bson.D{{Key: "a", Value: int32(1)}}, Name: fmt.Sprintf("ix%d", k)}})
+						case "dropIndex":
+							w.exec(&drv.Op{Kind: drv.DropAllIndexes, DB: "d", Coll: "c"})
+						case "createCollection":
+							w.exec(&drv.Op{Kind: drv.CreateCollection, DB: "d", Coll: fmt.Sprintf("n%d", k)})
+						case "update":
+							w.exec(&drv.Op{Kind: drv.UpdateMany, DB: "d", Coll: "c", Filter: bson.D{}, Update: bson.D{{Key: "$inc", Value: bson.D{{Key: "n", Value: int32(1)}}}}})
+						case "delete":
+							w.exec(&drv.Op{Kind: drv.DeleteOne, DB: "d", Coll: "c", Filter: bson.D{}})
+						case "dropCollection":
+							w.exec(&drv.Op{Kind: drv.DropCollection, DB: "d", Coll: fmt.Sprintf("n%d", k-1)})
+						case "transaction":
+							if w.begin() == nil {
+								w.exec(&drv.Op{Kind: drv.InsertOne, DB: "d", Coll: "c", Docs: []bson.D{{{Key: "_id", Value: fmt.Sprintf("t%d", k)}}}})
+								w.commit()
+							}
+						}
+						if mon.OplogLen(w.engine.Catalog()) < before+1 && mon.OplogLen(w.engine.Catalog()) <= before {
+							c.Count("trimming_commits_with_held_snapshots", 1)
+						}
+						for _, s := range snaps {
+							c.Count("snapshot_rechecks", 1)
+							if d := s.dump.Diff(exactDump(s.cat())); d != "" {
+								c.Violate("snapshot:changed-by-retention", fmt.Sprintf("a %s returns other bytes after a %s commit that trimmed the change log: %s", s.what, kind, d), map[string]interface{}{"history": w.history()})
+								return
+							}
+						}
+						take(kind)
+					}
+				})
+			}
+		}
+	}
+}
+
 func runC03(c *fw.Ctx) {
 	if c.Batch < 16 {
 		c03Concurrent(c)
 	}
+	c03Trimmed(c)
 	nhist := c.N(240, 2400) / c.NBatches
 	for q := 0; q < nhist; q++ {
 		idx := c.Batch*nhist + q
